@@ -898,7 +898,8 @@ class PauliStringCollection:
         index = self.find(pauli_string)
         if index != -1:
             self.classification = None
-            self.generators[index] = new_pauli_string.copy()
+            # keep all strings of the collection the same length, as append and insert do
+            self.generators[index] = self._processing(new_pauli_string.copy())
 
     def contract(self, pauli_string: PauliString, contracted_pauli_string: PauliString) -> None:
         """
